@@ -26,6 +26,7 @@ package provisioning
 //verif:ensures[unlocks] called("(*pipelineLocks).Lock")
 
 //verif:func (*Service).ApplyPlanLive(s, ctx, desired, hash, allowRestartOnRunning) (d, err)
+//verif:let running = result_of("(*Service).isRunning", 0)
 //verif:assume locksInv(s.pipelineLocks) because "NewService builds pipelineLocks with newPipelineLocks (proved) and only pipelineLocks.Lock (proved to preserve it) touches the map"
 //verif:call[plan-under-lock] (*Service).Plan requires called("(*pipelineLocks).Lock") && count("$result.provisioning.(*pipelineLocks).Lock.0") == 0
 //verif:call[running-check-under-lock] (*Service).isRunning requires called("(*pipelineLocks).Lock") && count("$result.provisioning.(*pipelineLocks).Lock.0") == 0 && succeeded("(*Service).Plan")
@@ -87,6 +88,7 @@ package provisioning
 //verif:loop 0 invariant count("action.Rollback") == k + 1 && k < len(actions) && (forall m in [0, len(actions)): actions[m] == old(actions[m]))
 
 //verif:func (*Service).importPipeline(s, ctx, newConfig, provisionedBy) (err)
+//verif:let actions = arg_of("(*Service).executeActions", 2)
 //verif:call[reverse-executed-prefix] reverseActions requires succeeded("(*Service).executeActions") == false && called("(*Service).executeActions") && base(arg0) == base(actions) && off(arg0) == off(actions) && len(arg0) == result_of("(*Service).executeActions", 0) + 1 && count("reverseActions") == 0
 //verif:call[rollback-reversed-prefix] (*Service).rollbackActions requires count("reverseActions") == 1 && arg_of("reverseActions", 0) == arg2 && count("(*Service).rollbackActions") == 0
 //verif:ensures[failure-rolls-back] called("(*Service).executeActions") && !succeeded("(*Service).executeActions") ==> called("(*Service).rollbackActions") && err != nil
